@@ -110,6 +110,12 @@ PROBES = [
     (N + "probe_c07_nested_effects.mlir", "forcall", [[7, 9, 0, 0, 1], [7, 9, 0, 2, 1]]),
     (N + "probe_c01_hoist_nested.mlir", "hoist_nested", [[7, 9, 0, 0], [7, 9, 1, 0], [7, 9, 0, 1], [7, 9, 1, 1]]),
 ]
+# already threaded IR given to accfg-dedup alone (its real input; re-running accfg-trace-states on it is C07's
+# known finding F42): a launch nested in a later scf.if uses the state an scf.if yields, then a new setup follows
+PROBES_THREADED = [
+    (N + "probe_c01_hoist_launch_nested.mlir", "hoist_launch_nested", [[7, 9, 0, 0], [7, 9, 1, 0], [7, 9, 0, 1], [7, 9, 1, 1]]),
+]
+_STRICT = set()
 
 
 def _cfg(i):
@@ -277,7 +283,8 @@ def _l2(items, deep):
         for idx in lists[0]:
             text, fn, ins, st, from_traced = sh[idx]
             # known-finding class F23: the ORIGINAL program is not in the full-field lowering form
-            klass = "not_full_field_setups" if idx in not_ff else None
+            # (a loop-free strict probe cannot be F23, which is a hoist in front of a loop)
+            klass = "not_full_field_setups" if idx in not_ff and text not in _STRICT else None
             what = "dedup-changed-what-a-launch-observes" + ("(not full-field form)" if klass else "")
             fails.append({"what": what, "text": text, "fn": fn, "inputs": ins,
                           "from_traced": from_traced, "_st": st, "klass": klass})
@@ -303,6 +310,11 @@ def search(ctx, deep=False):
         text = open(path).read()
         items.append((text, fn, ins, AC.Staged(text, fn), False))
         ctx.count({"probe": path, "fn": fn}, True, path + fn, "probe")
+    for path, fn, ins in PROBES_THREADED:
+        text = open(path).read()
+        _STRICT.add(text)
+        items.append((text, fn, ins, AC.Staged(text, fn, trace=False), False))
+        ctx.count({"probe": path, "fn": fn, "threaded": True}, True, path + fn, "probe")
     for text in dict.fromkeys(_SUSPECTS):
         items.append((text, "f", _INS[text] * 2, AC.Staged(text), False))
     for text, fn, ins, st in _programs(ctx, n, "L2", False):
